@@ -252,6 +252,54 @@ fn s_shared_pool(rng: &mut Rng) {
    }
 }
 
+/// C20: the very first parallel-program constructions of the process happen at the same instant
+/// on threads whose pools differ in size. A spin gate (no OS blocking, so that the threads leave it
+/// within a few basic blocks of each other) releases all of them into `P::default()` together, which
+/// makes the first evaluations of every lazily initialised process-wide value (e.g. the DashMap
+/// shard amount) overlap. Each instance must equal its serial twin. Race detector off as in `tenants`.
+fn s_first_use(rng: &mut Rng) {
+   use std::sync::atomic::{AtomicUsize, Ordering};
+   let sizes = [1usize, 3, 1, 3];
+   let graphs: Vec<Vec<(u32, u32)>> = sizes.iter().map(|_| diamond(rng)).collect();
+   let gate = std::sync::Arc::new(AtomicUsize::new(0));
+   let n = sizes.len();
+   let handles: Vec<_> = graphs
+      .iter()
+      .cloned()
+      .zip(sizes)
+      .map(|(edges, sz)| {
+         let gate = gate.clone();
+         std::thread::spawn(move || {
+            let pl = pool(sz);
+            pl.install(|| {
+               gate.fetch_add(1, Ordering::SeqCst);
+               while gate.load(Ordering::SeqCst) < n {
+                  std::hint::spin_loop();
+               }
+               let p = tc::par::P::default();
+               for e in edges.iter() {
+                  p.edge.push(*e);
+               }
+               let mut p = p;
+               p.run();
+               p.path.iter().cloned().collect::<Vec<(u32, u32)>>()
+            })
+         })
+      })
+      .collect();
+   for (h, edges) in handles.into_iter().zip(graphs) {
+      let rows = h.join().unwrap_or_else(|_| fail("first-use: an instance panicked".to_string()));
+      let mut s = tc::ser::P::default();
+      s.edge = edges;
+      s.run();
+      let want: BTreeSet<(u32, u32)> = s.path.iter().cloned().collect();
+      let got: BTreeSet<(u32, u32)> = rows.iter().cloned().collect();
+      if got != want || rows.len() != got.len() {
+         fail(format!("first-use: instance differs from its solo serial result: {:?} vs {:?}", got, want));
+      }
+   }
+}
+
 fn main() {
    let args: Vec<String> = std::env::args().collect();
    let scenario = args.get(1).map(|s| s.as_str()).unwrap_or("tc");
@@ -265,6 +313,7 @@ fn main() {
       "index" => s_index(&mut rng, 3),
       "tenants" => s_tenants(&mut rng),
       "shared-pool" => s_shared_pool(&mut rng),
+      "first-use" => s_first_use(&mut rng),
       other => {
          eprintln!("unknown scenario {}", other);
          std::process::exit(2)
